@@ -53,6 +53,17 @@ def entry(name=None, needs=None, weight=1):
 
 # ------------------------------------------------------------------ helpers
 
+def _canon(v):
+    # representation of a value that does not depend on numpy's print options
+    if isinstance(v, np.ndarray):
+        return 'array:%s:%s:%s' % (v.dtype, v.shape, v.tobytes().hex())
+    if isinstance(v, (float, np.floating)):
+        return 'float:' + float(v).hex()
+    if isinstance(v, (bool, np.bool_, int, np.integer, str)) or v is None:
+        return '%s:%s' % (type(v).__name__.replace('bool_', 'bool'), v if not isinstance(v, np.integer) else int(v))
+    return 'obj:' + type(v).__name__
+
+
 def _nlist(c):
     # the shape argument as a list or as an int64 ndarray ("list, np.ndarray")
     return c.own(np.array(c.n)) if c.rng.random() < 0.4 else c.own(list(c.n))
@@ -1281,7 +1292,7 @@ def e_cross(c):
         def cb(Y, info, opts):
             c.monitor('cross.cb')
             sw['s'] += 1
-            sw['seen'].append(sorted((str(k), repr(v)) for k, v in info.items() if k != 't'))      # what a watching caller reads in the progress record
+            sw['seen'].append(sorted((str(k), _canon(v)) for k, v in info.items() if k != 't'))      # what a watching caller reads in the progress record
             return True if cb_at == sw['s'] else None
         sw['seen'] = []
         kw['cb'] = cb
@@ -1373,7 +1384,7 @@ def e_als(c):
         def cb(Y, info, opts):
             c.monitor('als.cb')
             sw['s'] += 1
-            sw['seen'].append(sorted((str(k), repr(v)) for k, v in info.items() if k != 't'))      # what a watching caller reads in the progress record
+            sw['seen'].append(sorted((str(k), _canon(v)) for k, v in info.items() if k != 't'))      # what a watching caller reads in the progress record
             return True if cb_at == sw['s'] else None
         sw['seen'] = []
         kw['cb'] = cb
